@@ -160,6 +160,10 @@ pub struct Ref {
     pub board: BoardRef,
     /// key-interrupt flip-flop
     pub iff: bool,
+    /// the flip-flop was set when an instruction end sampled it with IE clear. No property says
+    /// whether the press is then forgotten or held until IE is set again (the pinned tree forgets
+    /// it), so from here on the reference follows the SUT until the question resolves itself.
+    pub iff_unknown: bool,
     pub state: RState,
     /// 0,16,32,48,64
     pub stack: u8,
@@ -212,6 +216,7 @@ impl Ref {
             micr: 0,
             board: BoardRef::new(),
             iff: false,
+            iff_unknown: false,
             state: RState::Running,
             stack: 16,
             limit: None,
@@ -249,6 +254,7 @@ impl Ref {
         self.out = [0; 2];
         self.micr = 0;
         self.iff = false;
+        self.iff_unknown = false;
         self.state = RState::Running;
         self.pending = Pending::ResetFetch;
     }
